@@ -229,10 +229,6 @@ Proof. unfold carrier_secs. rewrite concat_app, <- ser_pre_concat. cbn [concat].
 Lemma ser_unit_split c : ser_unit c = pf c :: repeatN 255 (pf c) ++ concat (carrier_secs c).
 Proof. rewrite carrier_secs_concat. reflexivity. Qed.
 
-(* the prefix of k bytes ends exactly at the end of one of the preceding sections *)
-Definition inner_end (c : carrier) (k : N) : Prop :=
-  exists i, (1 <= i <= length (pre c))%nat /\ k = 1 + pf c + len (ser_pre (firstn i (pre c))).
-
 Lemma boundary_iff : forall pre SS j, 0 < j < len (ser_pre pre ++ SS) ->
   (boundary (map ser_other pre ++ [SS]) j = true <->
    exists i, (1 <= i <= length pre)%nat /\ j = len (ser_pre (firstn i pre))).
